@@ -361,7 +361,7 @@ static int pad_pkcs1(bn_t m, size_t *p_len, size_t m_len, size_t k_len,
 							}
 							*p_len = k_len - m_len;
 							bn_mod_2b(m, m, m_len * 8);
-							if (r == 0 && m_len == RLC_MD_LEN && counter >= 8) {
+							if (r == 0 && m_len == RLC_MD_LEN && counter >= 9) {
 								result = RLC_OK;
 							}
 						}
@@ -389,7 +389,7 @@ static int pad_pkcs1(bn_t m, size_t *p_len, size_t m_len, size_t k_len,
 						bn_mod_2b(t, t, 8);
 						if (bn_is_zero(t)) {
 							bn_mod_2b(m, m, m_len * 8);
-							if (m_len == RLC_MD_LEN && counter >= 8) {
+							if (m_len == RLC_MD_LEN && counter >= 9) {
 								result = RLC_OK;
 							}
 						}
